@@ -17,13 +17,15 @@ theorem ring_lock_facts : bufferLocks = lockFacts := by decide
 exactly the lock operation `lockFacts` lists after that mark (none where it lists none). -/
 theorem lockFacts_steps :
     markPcs.map (fun pc => (pc.yid, lockOpCode pc))
-      = (((lockFacts.map (·.2)).flatten |> markOps).filter (fun p => p.1 < 110)).map (fun p => (some p.1, p.2)) := by
+      = (((lockFacts.map (·.2)).flatten |> markOps).filter (fun p => p.1 < 120)).map (fun p => (some p.1, p.2)) := by
   decide
 
 /-- the ring cannot be smaller than two read blocks; the block sizes are what the
-generators and the free-running pipe assume -/
+generators and the free-running pipe assume; the model's read block (`Cfg.rblock`, the most
+`ReadFrom` offers its reader in one `Read`) is the source's -/
 theorem ring_block_facts :
     defaultReadBlockSize = 8192 ∧ defaultWriteBlockSize = 8192 ∧ defaultBufferSize = 2 ^ 18 ∧
-    2 * defaultReadBlockSize = 2 ^ 14 := by decide
+    2 * defaultReadBlockSize = 2 ^ 14 ∧
+    ({ k := 14, src := fun _ => 0 } : Cfg).rblock = defaultReadBlockSize := by decide
 
 end Mqtt.Proofs.Ring
